@@ -1,5 +1,7 @@
 import NavisModel.Proofs.DistLemmas
 import NavisModel.Proofs.SegmentLemmas
+import NavisModel.Proofs.DistX5Lemmas
+import NavisModel.Model.DistGen
 /-!
 # C05 — tree distances and segment decompositions match their definitions
 
@@ -211,5 +213,353 @@ example : ((segments ex (coordLen ex)).map (pathLen (coordLen ex))).sum = 10 ∧
     ((smallSegments ex).map (pathLen (coordLen ex))).sum = 10 := by decide
 example : distToRoot ex (coordLen ex) 4 = coordLen ex 4 2 + distToRoot ex (coordLen ex) 2 ∧
     distToRoot ex (coordLen ex) 4 = 7 := by decide
+
+/-! ## Second pass: the navis code around the definitions, as written, tied to the current source
+
+`Model/DistX.lean` models the option handling, row selection, labelling, limit cut-off, fancy-index assignment,
+dictionaries and sort keys of `navis/graph/graph_utils.py` / `navis/morpho/mmetrics.py` parametrised by facts;
+`Gen/Dist.lean` holds the facts the translator extracts from the CURRENT source; `Model/DistGen.lean`
+instantiates the models with them (that is what the driver runs against navis).  The theorems below state that
+these instances ARE the definitions above, for all inputs; an edit of one of the facts (comparison operator,
+guard, label expression, type set, sort direction, forwarded keyword …) makes the corresponding theorem stop
+checking. -/
+section AsWritten
+open Navis.DistX
+
+/-! ### `limit` -/
+
+/-- No limit (`None`, `inf`): every distance is kept. -/
+theorem limit_none_keeps_all (d : Option Nat) : applyLimit none d = d := applyLimit_none d
+
+/-- **`limit` honoured, both directions**: an entry survives iff it was finite and `≤ limit`. -/
+theorem limit_some_iff (l : Nat) (d : Option Nat) (v : Nat) : applyLimit (some l) d = some v ↔ d = some v ∧ v ≤ l :=
+  applyLimit_some_iff l d v
+
+/-- … and becomes infinite iff it was infinite or strictly above the limit. -/
+theorem limit_inf_iff (l : Nat) (d : Option Nat) : applyLimit (some l) d = none ↔ d = none ∨ ∃ v, d = some v ∧ l < v :=
+  applyLimit_eq_none_iff l d
+
+/-- `limit = 0` is a limit: only zero distances (the node itself, coincident nodes) survive. -/
+theorem limit_zero (v : Nat) : applyLimit (some 0) (some v) = (if v = 0 then some 0 else none) := by
+  rw [limit_keeps_le]
+  by_cases h : v = 0
+  · subst h; rfl
+  · have : ¬ v ≤ 0 := by omega
+    simp [h, this]
+
+/-- **The cut-off of the fastcore branch, with the guard and the comparison read from the source**
+(`if limit is not None and limit is not np.inf: dmat[dmat > limit] = np.inf`), is the limit of the definition for
+every kind of limit value (`None`, `np.inf`, another infinite float, any number incl. `0`) and every entry.
+A truthiness guard (`if limit:`) or `>=` makes this theorem fail. -/
+theorem limit_as_written :
+    ∃ g c, Gen.Dist.fcLimitGuard.mapM GuardAtom.ofName = some g ∧ Cmp.ofName Gen.Dist.fcLimitCmp = some c ∧
+      Gen.Dist.fcLimitValue = "np.inf" ∧ Gen.Dist.limitMapUnits = true ∧
+      ∀ lim d, applyLimitW g c lim d = applyLimit lim.toOpt d :=
+  ⟨_, _, rfl, rfl, rfl, rfl, applyLimitW_sound _ _ (by decide) rfl⟩
+
+/-- What a truthiness guard would do: the limit `0` is ignored (the seeded change this pins). -/
+theorem limit_truthy_guard_ignores_zero (v : Nat) (hv : 0 < v) :
+    applyLimitW [.truthy] .gt (.num 0) (some v) ≠ applyLimit (LimitV.num 0).toOpt (some v) := by
+  rw [applyLimitW_truthy_zero]
+  have : v > 0 := hv
+  simp [LimitV.toOpt, applyLimit, this]
+
+/-- **Sentinel decoding as written** (`dmat[dmat < 0] = np.inf`, unconditionally, before the limit): the
+accelerator's `-1` becomes infinite, every real distance — including `0` — is kept. -/
+theorem sentinel_as_written :
+    ∃ c k, fcSentinel? = some (c, k) ∧ (∀ raw : Int, raw < 0 → decodeFc c k raw = none) ∧ ∀ n : Nat, decodeFc c k n = some n :=
+  ⟨_, _, rfl, decodeFc_neg, decodeFc_nat⟩
+
+/-! ### `geodesic_matrix`: `from_`, `directed`, `weight`, `limit`, labels -/
+
+/-- Both branches of `geodesic_matrix`, as configured by the current source, honour the options. -/
+theorem geo_cfgs_ok : fcCfg?.map GeoCfg.okB = some true ∧ spCfg?.map GeoCfg.okB = some true := by decide
+
+theorem fcCfg_ok {c : GeoCfg} (h : fcCfg? = some c) : c.okB = true := by
+  have := geo_cfgs_ok.1; rw [h] at this; simpa using this
+
+theorem spCfg_ok {c : GeoCfg} (h : spCfg? = some c) : c.okB = true := by
+  have := geo_cfgs_ok.2; rw [h] at this; simpa using this
+
+/-- **`geodesic_matrix(x, from_=…, directed=…, weight=…, limit=…)` as written, either branch (navis-fastcore or
+scipy on the igraph / networkx graph)**, for any table with unique ids, any `from_` (scalar or list, duplicates,
+any order) inside the table, both values of `directed` and `weight`, every limit value: the call succeeds, the
+columns are the node ids in table order, the row labels are duplicate-free and are exactly the requested ids, and the
+entry under labels `(a, b)` is the defined distance `geo` with the limit applied. -/
+theorem geodesic_matrix_from_labelled (c : GeoCfg) (hc : fcCfg? = some c ∨ spCfg? = some c)
+    (t : Table) (hnd : (ids t).Nodup) (len : Int → Int → Nat) (weighted directed : Bool) (lim : LimitV)
+    (from_ : FromV) (hgiven : from_.toList ≠ [] ∨ ∃ l, from_ = .list l) (hsub : ∀ i ∈ from_.toList, i ∈ ids t) :
+    ∃ M, geoMatW c t len weighted directed lim from_ = some M ∧ M.cols = ids t ∧ M.rows.Nodup ∧
+      (∀ a, a ∈ M.rows ↔ a ∈ from_.toList) ∧
+      ∀ a ∈ from_.toList, ∀ b ∈ ids t,
+        M.get? a b = some (applyLimit lim.toOpt (geo t (effLen len weighted) directed a b)) :=
+  geoMatW_from (hc.elim fcCfg_ok spCfg_ok) t len weighted directed lim from_ hgiven hnd hsub
+
+/-- **All rows** (`from_` not given): rows and columns are the node ids in table order, entries as above. -/
+theorem geodesic_matrix_all_labelled (c : GeoCfg) (hc : fcCfg? = some c ∨ spCfg? = some c)
+    (t : Table) (len : Int → Int → Nat) (weighted directed : Bool) (lim : LimitV) :
+    ∃ M, geoMatW c t len weighted directed lim .none = some M ∧ M.rows = ids t ∧ M.cols = ids t ∧
+      ∀ a ∈ ids t, ∀ b ∈ ids t,
+        M.get? a b = some (applyLimit lim.toOpt (geo t (effLen len weighted) directed a b)) :=
+  geoMatW_all (hc.elim fcCfg_ok spCfg_ok) t len weighted directed lim
+
+/-- **An id that is not in the table is refused** (`ValueError`) on both branches. -/
+theorem geodesic_matrix_missing_id (c : GeoCfg) (hc : fcCfg? = some c ∨ spCfg? = some c)
+    (t : Table) (len : Int → Int → Nat) (weighted directed : Bool) (lim : LimitV) (from_ : FromV) (i : Int)
+    (hi : i ∈ from_.toList) (hn : i ∉ ids t) : geoMatW c t len weighted directed lim from_ = none :=
+  geoMatW_missing (hc.elim fcCfg_ok spCfg_ok) t len weighted directed lim from_ hi hn
+
+/-- **The two branches return the same labelled matrix** (they differ in row order only: sorted ids versus
+table order): equal entries under equal labels. -/
+theorem geodesic_matrix_branches_agree (cf cs : GeoCfg) (hf : fcCfg? = some cf) (hs : spCfg? = some cs)
+    (t : Table) (hnd : (ids t).Nodup) (len : Int → Int → Nat) (weighted directed : Bool) (lim : LimitV)
+    (from_ : FromV) (hgiven : from_.toList ≠ [] ∨ ∃ l, from_ = .list l) (hsub : ∀ i ∈ from_.toList, i ∈ ids t) :
+    ∃ Mf Ms, geoMatW cf t len weighted directed lim from_ = some Mf ∧ geoMatW cs t len weighted directed lim from_ = some Ms ∧
+      Mf.rows.Perm Ms.rows ∧ Mf.cols = Ms.cols ∧ ∀ a ∈ from_.toList, ∀ b ∈ ids t, Mf.get? a b = Ms.get? a b := by
+  obtain ⟨Mf, h1, h2, h3, h4, h5⟩ := geoMatW_from (fcCfg_ok hf) t len weighted directed lim from_ hgiven hnd hsub
+  obtain ⟨Ms, g1, g2, g3, g4, g5⟩ := geoMatW_from (spCfg_ok hs) t len weighted directed lim from_ hgiven hnd hsub
+  refine ⟨Mf, Ms, h1, g1, ?_, by rw [h2, g2], fun a ha b hb => by rw [h5 a ha b hb, g5 a ha b hb]⟩
+  exact (List.perm_ext_iff_of_nodup h3 g3).mpr fun a => by rw [h4, g4]
+
+/-- What the seeded change `index = np.unique(from_)` on the scipy branch does: rows computed in table order but
+labelled in sorted order — a wrong label as soon as the table is not sorted. -/
+example : computedRows .whereIsin [5, 3, 9] [3, 5] = [5, 3] ∧ rowLabels .fromArg [5, 3, 9] [3, 5] = [3, 5] := by decide
+
+/-- **`directed` honoured**: on ancestor pairs the directed distance is the undirected one; on all other pairs it is
+infinite (`geoDir_finite_iff_ancestor`). -/
+theorem directed_eq_undirected_on_ancestors (t : Table) (hw : WF t) (len : Int → Int → Nat) (a b : Int)
+    (h : b ∈ rootPath t a) : geo t len true a b = geo t len false a b :=
+  (geo_directed_eq_undirected hw len h).symm
+
+/-! ### `distal_to` -/
+
+/-- **`distal_to` as written** (`None` = all nodes, ids de-duplicated, matrix or scalar form): the entry under
+labels `(x, y)` is "`y` lies on `x`'s path to the root". -/
+theorem distal_to_labelled (t : Table) (a b : FromV) (x y : Int) (hx : x ∈ axisLabels t a) (hy : y ∈ axisLabels t b) :
+    (distalW t a b).get? x y = some ((rootPath t x).contains y) := distalW_get t a b hx hy
+
+/-- Labels: all ids (table order) when the argument is `None`, else exactly the given ids, without repetition. -/
+theorem distal_to_labels (t : Table) (hnd : (ids t).Nodup) (f : FromV) :
+    (axisLabels t f).Nodup ∧ (axisLabels t .none = ids t) ∧
+    ((f.toList ≠ [] ∨ ∃ l, f = .list l) → ∀ x, x ∈ axisLabels t f ↔ x ∈ f.toList) :=
+  ⟨axisLabels_nodup hnd f, rfl, fun h x => mem_axisLabels_given h x⟩
+
+/-- Two single ids: a scalar. -/
+theorem distal_to_scalar (t : Table) (i j : Int) :
+    distalOut (distalW t (.scalar i) (.scalar j)) = .inl ((rootPath t i).contains j) := distalOut_scalar t i j
+
+/-- **A node is distal to itself** (the definition "lies on the path to the root" includes the start; navis'
+docstring says the same). -/
+theorem distal_self (t : Table) (a : Int) (ha : a ∈ ids t) : (rootPath t a).contains a = true :=
+  List.contains_iff_mem.mpr (mem_rootPath_self ha)
+
+/-- **Unreachable pairs are `False`**: nodes of different trees are never distal to one another. -/
+theorem distal_false_across_trees (t : Table) (hw : WF t) (a b : Int) (h : rootOf t a ≠ rootOf t b) :
+    (rootPath t a).contains b = false := by
+  cases hc : (rootPath t a).contains b with
+  | false => rfl
+  | true => exact absurd (rootOf_eq_of_mem_rootPath hw (List.contains_iff_mem.mp hc)) h
+
+/-- Distal-to is antisymmetric: two different nodes are never distal to each other. -/
+theorem distal_antisymm (t : Table) (hw : WF t) (a b : Int) (h1 : (rootPath t a).contains b = true)
+    (h2 : (rootPath t b).contains a = true) : a = b :=
+  ancestor_antisymm hw (List.contains_iff_mem.mp h1) (List.contains_iff_mem.mp h2)
+
+/-- Distal-to is the finiteness of the directed distance (any weight). -/
+theorem distal_iff_directed_finite (t : Table) (len : Int → Int → Nat) (a b : Int) :
+    (rootPath t a).contains b = true ↔ (geo t len true a b).isSome :=
+  ⟨fun h => (geoDir_finite_iff_ancestor t len a b).mpr (List.contains_iff_mem.mp h),
+   fun h => List.contains_iff_mem.mpr ((geoDir_finite_iff_ancestor t len a b).mp h)⟩
+
+/-! ### adjacency matrix -/
+
+/-- **Every non-root filter in the code that decides which rows carry an edge** (`skeleton_adjacency_matrix`,
+`neuron2nx`, `neuron2igraph`, `cable_length`, `TreeNeuron.edges`) **is `parent_id >= 0`** — the model's
+`!isRootNode`.  (`> 0` would drop the children of node 0.) -/
+theorem nonroot_filters_as_written :
+    ∃ l, nonRootTests? = some l ∧ l.length ≥ 5 ∧ ∀ e ∈ l, ∀ n : Node, e.2.1.evalInt n.parent e.2.2 = !isRootNode n := by
+  refine ⟨_, rfl, by decide, ?_⟩
+  intro e he n
+  have hb : nonRootCmpB e.2.1 e.2.2 = true := by
+    revert e
+    decide
+  exact evalInt_eq_not_isRoot hb n
+
+/-- **`skeleton_adjacency_matrix(sort=False)` as written** (mask `parent_id >= 0`, rows = positions of the filtered
+nodes, columns = positions of their parents through the id → position map, both axes labelled by node id): the entry
+under labels `(a, b)` is the parent relation. -/
+theorem adjacency_matrix_labelled (t : Table) (hnd : (ids t).Nodup) (a b : Int) (ha : a ∈ ids t) (hb : b ∈ ids t) :
+    ∃ c k, adjCmp? = some (c, k) ∧ adjShapeOK = true ∧ (adjMatW c k t).rows = ids t ∧ (adjMatW c k t).cols = ids t ∧
+      (adjMatW c k t).get? a b = some (adjacent t a b) :=
+  ⟨_, _, rfl, by decide, rfl, rfl, adjMatW_get (by decide) t hnd ha hb⟩
+
+/-- **`sort=True` / `x.adjacency_matrix`**: re-indexing both axes by any label order that contains the ids shows
+the same relation (the order itself, `node_label_sorting`, is not part of the property). -/
+theorem adjacency_matrix_sorted_labelled (t : Table) (hnd : (ids t).Nodup) (p : List Int) (a b : Int)
+    (ha : a ∈ p) (hb : b ∈ p) (ha' : a ∈ ids t) (hb' : b ∈ ids t) :
+    ∃ c k, adjCmp? = some (c, k) ∧ (adjSorted c k t p).rows = p ∧ (adjSorted c k t p).cols = p ∧
+      (adjSorted c k t p).get? a b = some (adjacent t a b) :=
+  ⟨_, _, rfl, rfl, rfl, adjSorted_get (by decide) t hnd p ha hb ha' hb'⟩
+
+/-! ### `dist_to_root`, `parent_dist`, `cable_length`, `segment_length` -/
+
+/-- **`dist_to_root` as written** (shortest-path lengths to each root, merged over the roots): every node is mapped
+to its root distance — also in forests, whichever root comes last. -/
+theorem dist_to_root_dict (t : Table) (hw : WF t) (len : Int → Int → Nat) (i : Int) (hi : i ∈ ids t) :
+    dictGet (distToRootW t len) i = some (distToRoot t len i) := distToRootW_get hw len hi
+
+/-- Every entry of that dictionary belongs to a node and carries its root distance (no stray keys). -/
+theorem dist_to_root_entries (t : Table) (hw : WF t) (len : Int → Int → Nat) (i : Int) (d : Nat) :
+    (i, d) ∈ distToRootW t len ↔ i ∈ ids t ∧ d = distToRoot t len i := mem_distToRootW hw len i d
+
+/-- `igraph_indices=True`: the same values under the row positions. -/
+theorem dist_to_root_by_position (t : Table) (hw : WF t) (len : Int → Int → Nat) (i : Int) (hi : i ∈ ids t) :
+    (Int.ofNat ((ids t).idxOf i), distToRoot t len i) ∈ distToRootIdxW t len := distToRootIdxW_mem hw len hi
+
+/-- **`parent_dist(root_dist=0)` sums to the cable length**; entry `i` is the parent edge of row `i` (`root_dist`
+for roots). -/
+theorem parent_dist_as_written (t : Table) (len : Int → Int → Nat) :
+    ∃ c k, adjCmp? = some (c, k) ∧
+      ((parentDistW c k t len (some 0)).map fun o => o.getD 0).sum = cable t len ∧
+      ∀ rd i (h : i < t.length), (parentDistW c k t len rd)[i]? =
+        some (if isRootNode t[i] then rd else some (len t[i].id t[i].parent)) :=
+  ⟨_, _, rfl, parentDistW_sum (by decide) t len, fun rd i h => parentDistW_entry (by decide) t len rd i h⟩
+
+/-- **`cable_length(mask=…)`**: the cable length of the masked table with orphans re-rooted; without a mask the
+cable length. -/
+theorem cable_length_masked (t : Table) (hw : WF t) (len : Int → Int → Nat) (mask : List Bool) :
+    ∃ c k, adjCmp? = some (c, k) ∧
+      cableMaskedW c k t len mask = cable (orphansToRoots (maskRows t mask)) len ∧
+      cableMaskedW c k t len (List.replicate t.length true) = cable t len :=
+  ⟨_, _, rfl, cableMaskedW_eq (by decide) t len mask, cableMaskedW_all (by decide) hw len⟩
+
+/-- **`segment_length` as written** (sum of the weights of the consecutive `(child, parent)` edges; `KeyError`
+otherwise): defined exactly on child → parent paths, where it is the path length. -/
+theorem segment_length_as_written (t : Table) (len : Int → Int → Nat) (s : List Int) (hs : s ≠ []) (d : Nat) :
+    segLenW t len s = some d ↔ isParentPath t s = true ∧ d = pathLen len s := by
+  constructor
+  · exact segLenW_some t len s d hs
+  · rintro ⟨h1, h2⟩; rw [h2]; exact segLenW_of_parentPath t len s h1
+
+/-- The segments navis returns can be measured: every segment accepted by the checker has a `segment_length`, and
+the lengths add up to the cable length. -/
+theorem segment_length_of_segments (t : Table) (hw : WF t) (len : Int → Int → Nat) (segs : List (List Int))
+    (h : segmentsOKB t len segs = true) :
+    (∀ s ∈ segs, segLenW t len s = some (pathLen len s)) ∧ (segs.map (pathLen len)).sum = cable t len := by
+  refine ⟨fun s hs => ?_, segment_lengths_sum_to_cable t hw len segs h⟩
+  unfold segmentsOKB at h
+  simp only [Bool.and_eq_true, List.all_eq_true] at h
+  exact segLenW_of_parentPath t len s (h.1.1.1 s hs)
+
+/-! ### the segment builders -/
+
+/-- **`_generate_segments` (Python path) with the facts of the current source** — leaf filter `type == "end"`,
+leafs sorted by root distance in descending order, the walk, the `len(sequence) > 1` filter, the final
+`sorted(zip(lengths, sequences), reverse=True)`, isolated nodes appended last — **is the model's `segments`**,
+hence an edge partition ordered longest first (`segments_correct`). -/
+theorem generate_segments_as_written (t : Table) (len : Int → Int → Nat) :
+    ∃ c, segCfg? = some c ∧ segmentsW c t len = segments t len :=
+  ⟨_, rfl, segmentsW_eq (by decide) t len⟩
+
+/-- … so what the source describes satisfies the property. -/
+theorem generate_segments_as_written_correct (t : Table) (hw : WF t) (len : Int → Int → Nat) :
+    ∃ c, segCfg? = some c ∧ segmentsOKB t len (segmentsW c t len) = true := by
+  obtain ⟨c, h1, h2⟩ := generate_segments_as_written t len
+  exact ⟨c, h1, h2 ▸ segments_correct t hw len⟩
+
+/-- What sorting the leafs in ASCENDING order would do (a seeded change): the short twig is walked first and takes the
+trunk, the result is no longer longest-first maximal — the decomposition differs from the model's. -/
+example : segmentsW (SegCfg.mk .end_ true false true .gt 1 true true true true) ex (coordLen ex) ≠ segments ex (coordLen ex) := by
+  decide
+
+/-- **`_break_segments` (networkx branch) with the type sets of the current source** (seeds `branch`/`end`, stops
+`branch`/`root`) **is the model's `smallSegments`**; loop condition, segment start and the igraph branch's degree
+selectors / seed and stop formulas are the ones `Model/SegmentVariants.lean` (C04) models as written. -/
+theorem break_segments_as_written (t : Table) :
+    ∃ seeds stops, brkSeeds? = some seeds ∧ brkStops? = some stops ∧ brkShapeOK = true ∧
+      smallSegmentsW seeds stops t = smallSegments t :=
+  ⟨_, _, rfl, rfl, by decide, smallSegmentsW_eq (by decide) (by decide) t⟩
+
+set_option maxRecDepth 8000 in
+/-- Graph modes, weights, normalisations of the point queries; Euclidean edge weights in all graph builders; the
+cached views call the functions above with default options. -/
+theorem point_queries_and_weights_as_written : pointShapeOK = true ∧ weightShapeOK = true ∧ viewsOK = true := by decide
+
+/-! ### edge lengths -/
+
+/-- **Edge lengths are Euclidean**: whenever the child–parent distance is an integer `w` (`w² = dx² + dy² + dz²`; the
+driver checks this for every edge of every generated case) the model's `coordLen` is `w`. -/
+theorem edge_length_is_euclidean (t : Table) (a b : Int) (na nb : Node) (ha : find? t a = some na) (hb : find? t b = some nb)
+    (w : Nat) (hw : sqDist na nb = w * w) : coordLen t a b = w := coordLen_exact ha hb w hw
+
+/-- The integer square root used for it: `r² ≤ n < (r+1)²`, exact on perfect squares. -/
+theorem isqrt_correct (n : Nat) : isqrt n * isqrt n ≤ n ∧ n < (isqrt n + 1) * (isqrt n + 1) ∧ isqrt (n * n) = n :=
+  ⟨(isqrt_spec n).1, (isqrt_spec n).2, isqrt_sq n⟩
+
+/-- **`weight=None` counts edges**: with unit weights the length of a path is its number of edges, the root
+distance is the depth. -/
+theorem unweighted_counts_edges (t : Table) (p : List Int) (i : Int) :
+    pathLen (fun _ _ => 1) p = p.length - 1 ∧ distToRoot t (fun _ _ => 1) i = (rootPath t i).length - 1 :=
+  ⟨pathLen_unit p, pathLen_unit _⟩
+
+/-! ### the checkers accept exactly what the property demands -/
+
+/-- **`segmentsOKB` is sound AND complete**: it accepts a list iff the list consists of child → parent paths, covers
+every edge exactly once, is ordered longest first and lists exactly the isolated nodes as single-node segments — so the
+checker can neither miss a violation of these clauses nor raise an alarm on a list that satisfies them (whatever the
+order among ties). -/
+theorem segmentsOKB_iff (t : Table) (len : Int → Int → Nat) (segs : List (List Int)) :
+    segmentsOKB t len segs = true ↔
+      (∀ s ∈ segs, isParentPath t s = true) ∧
+      (((segs.filter fun s => s.length > 1).flatMap fun s => s.dropLast).Perm ((t.filter fun n => !isRootNode n).map (·.id))) ∧
+      nonIncreasing (segs.map (pathLen len)) = true ∧
+      ((segs.filter fun s => s.length == 1).flatten.Perm ((t.filter fun n => isRootNode n && childCount t n.id == 0).map (·.id))) := by
+  unfold segmentsOKB coversEdgesOnce
+  simp only [Bool.and_eq_true, List.all_eq_true, beq_iff_eq]
+  constructor
+  · rintro ⟨⟨⟨h1, h2⟩, h3⟩, h4⟩
+    exact ⟨h1, perm_of_sortedInts_eq h2, h3, perm_of_sortedInts_eq h4⟩
+  · rintro ⟨h1, h2, h3, h4⟩
+    exact ⟨⟨⟨h1, sortedInts_eq_of_perm h2⟩, h3⟩, sortedInts_eq_of_perm h4⟩
+
+/-- **Start of a small segment** (the clause `smallSegmentsOKB_sound` leaves out): every accepted segment starts at
+a non-root node that is a leaf or a branch point (not a slab). -/
+theorem smallSegmentsOKB_sound_head (t : Table) (segs : List (List Int)) (h : smallSegmentsOKB t segs = true) :
+    ∀ s ∈ segs, ∃ hd n, s.head? = some hd ∧ find? t hd = some n ∧ ¬ n.parent < 0 ∧ childCount t hd ≠ 1 := by
+  unfold smallSegmentsOKB at h
+  simp only [Bool.and_eq_true, List.all_eq_true] at h
+  intro s hs
+  obtain ⟨⟨⟨_, hh⟩, _⟩, _⟩ := h.1 s hs
+  cases hd : s.head? with
+  | none => rw [hd] at hh; simp at hh
+  | some a =>
+    rw [hd] at hh
+    simp only at hh
+    cases hf : find? t a with
+    | none => rw [hf] at hh; simp at hh
+    | some n =>
+      rw [hf] at hh
+      simp only [Bool.and_eq_true, Bool.not_eq_true', decide_eq_false_iff_not, bne_iff_ne, ne_eq] at hh
+      exact ⟨a, n, rfl, hf, hh.1, hh.2⟩
+
+end AsWritten
+
+/-! ### Non-vacuity (second pass) -/
+section ExamplesX
+open Navis.DistX
+def exCfg : GeoCfg := (fcCfg?).getD ⟨.truthy, false, false, .sourcesArg, .fromArg, false, false, false, false, .ignored⟩
+example : fcCfg? = some exCfg := rfl
+example : (geoMatW exCfg ex (coordLen ex) true false (.num 3) (.list [4, 2, 4])).map (fun m => (m.rows, m.cols, m.vals)) =
+    some ([2, 4], [1, 2, 3, 4, 9], [[some 3, some 0, some 3, none, none], [none, none, none, some 0, none]]) := by decide
+example : ((spCfg?).bind fun c => geoMatW c ex (coordLen ex) true true .npInf (.scalar 3)).map (fun m => (m.rows, m.vals)) =
+    some ([3], [[some 6, some 3, some 0, none, none]]) := by decide
+example : geoMatW exCfg ex (coordLen ex) true false .pyNone (.list [7]) = none := by decide
+example : ((adjMatW .ge 0 ex).get? 3 2, (adjMatW .ge 0 ex).get? 2 3, (adjMatW .ge 0 ex).get? 9 9) = (some true, some false, some false) := by decide
+example : (distalW ex (.list [4, 3]) .none).vals = [[true, true, true, false, false], [true, true, false, true, false]] := by decide
+example : dictGet (distToRootW ex (coordLen ex)) 4 = some 7 ∧ dictGet (distToRootW ex (coordLen ex)) 9 = some 0 := by decide
+example : segLenW ex (coordLen ex) [4, 2, 1] = some 7 ∧ segLenW ex (coordLen ex) [4, 3] = none := by decide
+example : cableMaskedW .ge 0 ex (coordLen ex) [true, false, true, true, true] = 0 ∧
+    cableMaskedW .ge 0 ex (coordLen ex) [true, true, false, true, true] = 7 := by decide
+end ExamplesX
 
 end Navis.Props.C05
